@@ -193,6 +193,11 @@ pub trait Prop: Sync {
     fn stubbed_components(&self) -> Vec<String> {
         vec!["byte sink".into(), "byte source".into(), "piece source".into()]
     }
+    /// is the event-log digest of runs on the unmodified `prod` build comparable between executions?
+    /// (no for library-level scenarios: OS randomness and HashMap order shape the image there)
+    fn prod_digest_comparable(&self) -> bool {
+        false
+    }
     /// how many workers (default: all cores)
     fn jobs(&self) -> usize {
         16
@@ -345,7 +350,10 @@ pub fn worker(prop: &dyn Prop, tier: Tier, seed: u64, k: u64, j: u64, want_diges
     let mut sigs: BTreeSet<u64> = BTreeSet::new();
     let mut unknown_found = 0;
     let mut survey_map: BTreeMap<String, (String, u64)> = BTreeMap::new();
-    let mut r = k;
+    // MLASIM_RUN_OFFSET: explore runs [offset, offset + n) instead of [0, n) (determinism self-test of later runs)
+    let offset: u64 = std::env::var("MLASIM_RUN_OFFSET").ok().and_then(|s| s.parse().ok()).unwrap_or(0);
+    let n = n + offset;
+    let mut r = k + offset;
     while r < n {
         if t0.elapsed() > budget {
             rep.budget_cut = true;
@@ -386,7 +394,8 @@ pub fn worker(prop: &dyn Prop, tier: Tier, seed: u64, k: u64, j: u64, want_diges
             rep.samples.push(s);
         }
         if want_digests {
-            rep.digests.push((r, log.digest));
+            let comparable = case.cfg.variant != "prod" || prop.prod_digest_comparable();
+            rep.digests.push((r, if comparable { log.digest } else { 0 }));
         }
         let mut seen: BTreeSet<(String, String)> = BTreeSet::new();
         for v in viols {
